@@ -563,7 +563,7 @@ class Eval:
             if isinstance(a, BoolV) and isinstance(b, BoolV):
                 return BoolV(Cond("opaque", f"booleq{line}"))
             # comparisons between objects (e.g. enum == enum): opaque but harmless
-            return BoolV(Cond("opaque", f"{op}@{repr(a)[:30]}~{repr(b)[:30]}"))
+            return BoolV(Cond("opaque", f"{op}@{line}:{n.get('c', 0)}:{getattr(a, 'name', '')}"))
         ops = {"+": "add", "-": "sub", "*": "mul", "/": "div", "%": "rem", "<<": "shl", ">>": "shr",
                "&": "and", "|": "or", "^": "xor"}
         if op in ops:
@@ -669,7 +669,7 @@ class Eval:
                 self.obl("bounds", ok, f"slice [..{hi.key()}] of span '{sp.label}' (remaining {sp.rem.key()})", line,
                          role="slice-to")
                 nv = self.new_span(hi, None, "slice")
-                self.emit("slice_to", line, span=sp.sid, n=hi, out=nv.sid)
+                self.emit("slice_to", line, span=sp.sid, n=hi, out=nv.sid, rem=sp.rem)
                 return nv
             if lo is not None and hi is None:        # span[n..]
                 ok = self.env.prove_ge(sp.rem, lo)
@@ -759,7 +759,7 @@ class Eval:
                     self.block(n["then"])
                 except Return as r:
                     self.returns.append((r.val, self.env))
-                    self.emit("check", line, cond=c.c, ret=r.val)
+                    self.emit("check", line, cond=c.c, ret=r.val, always=(known is True))
             else:
                 self.emit("check", line, cond=c.c, ret=None, dead=True)
             self.env, self.vars = saved
@@ -907,7 +907,7 @@ class Eval:
         self.loop_consumed = []
         saved_written = self.written
         self.written = []
-        ev = self.emit("loop", line, count=count, over=over, body=[])
+        ev = self.emit("loop", line, count=count, over=over, body=[], pre_rem=dict(pre_rem))
         self.ev_stack.append(ev.body); self.ctx.append(ev.kind)
         self.vars.append({})
         saved_obls = self.obls
@@ -1349,7 +1349,7 @@ class Eval:
             if isinstance(recv, VecV):
                 return recv
             return NotImplemented
-        self.emit("to_vec", line, span=sp.sid, n=sp.rem)
+        self.emit("to_vec", line, span=sp.sid, n=sp.rem, rem=sp.rem)
         return VecV(sp.rem, IntV(sym.sym("byte", "u8")))
 
     def m_chunks(self, recv, n, line):
